@@ -11,6 +11,9 @@ import (
 	"sort"
 	"strings"
 
+	"context"
+
+	"github.com/gittuf/gittuf/internal/policy"
 	"github.com/gittuf/gittuf/internal/tuf"
 	"github.com/gittuf/gittuf/internal/tuf/migrations"
 	tufv01 "github.com/gittuf/gittuf/internal/tuf/v01"
@@ -152,12 +155,97 @@ func runC13(c *runCtx) error {
 	c.consts = append(c.consts, fmt.Sprintf("beq GittufPrefix %s", coqStr(tuf.GittufPrefix)), fmt.Sprintf("beq AllowRuleName %s", coqStr(tuf.AllowRuleName)))
 	r := c.rng
 	for len(c.cases) < c.n {
-		if r.Intn(3) != 0 {
+		switch x := r.Intn(8); {
+		case x == 0:
+			if err := c13NamesCase(c, r); err != nil {
+				return err
+			}
+		case x < 6:
 			c13Targets(c, r)
-		} else {
+		default:
 			c13Root(c, r)
 		}
 	}
+	return nil
+}
+
+// c13NamesCase loads a policy state with several rule files and asks it which rule names are taken
+// (State.HasRuleName is what Repository.AddDelegation / UpdateDelegation consult to keep rule names
+// unique across all rule files).
+func c13NamesCase(c *runCtx, r *rand.Rand) error {
+	pool := []string{"a", "b", "c", "d", "e", "f"}
+	pats := [][]string{{"git:refs/heads/main"}, {"file:src/*"}, {"git:refs/heads/feature", "file:docs/*"}, {"git:refs/tags/*"}}
+	mk := func(name string, version int) *wFile {
+		f := &wFile{Version: version, Signers: []int{4}}
+		f.Name = name
+		f.Defs = map[int][]int{101: {4}}
+		return f
+	}
+	t := mk("targets", 1)
+	t.Signers = []int{2}
+	files := []*wFile{t}
+	avail := append([]string{}, pool...)
+	r.Shuffle(len(avail), func(i, j int) { avail[i], avail[j] = avail[j], avail[i] })
+	take := func() string { // mostly fresh names, sometimes a repeat
+		if r.Intn(7) == 0 || len(avail) == 0 {
+			return pool[r.Intn(len(pool))]
+		}
+		n := avail[0]
+		avail = avail[1:]
+		return n
+	}
+	for i := 0; i < 1+r.Intn(3); i++ {
+		t.Rules = append(t.Rules, hRule{Name: take(), Patterns: pats[r.Intn(len(pats))], Pids: []int{101}, Thr: 1})
+	}
+	// delegated rule files, each named after a rule of an earlier file
+	for fi := 0; fi < r.Intn(3); fi++ {
+		parent := files[r.Intn(len(files))]
+		if len(parent.Rules) == 0 {
+			continue
+		}
+		name := parent.Rules[r.Intn(len(parent.Rules))].Name
+		dupFile := false
+		for _, f := range files {
+			if f.Name == name {
+				dupFile = true
+			}
+		}
+		if dupFile {
+			continue
+		}
+		d := mk(name, 1)
+		for i := 0; i < 1+r.Intn(2); i++ {
+			d.Rules = append(d.Rules, hRule{Name: take(), Patterns: pats[r.Intn(len(pats))], Pids: []int{101}, Thr: 1})
+		}
+		files = append(files, d)
+	}
+	pol := &wPolicy{RootVersion: 1, RootKeys: []int{1}, RootThr: 1, TargetsKeys: []int{2}, TargetsThr: 1, HasTargetsRole: true, RootSigners: []int{1}, Files: files}
+	w := &wWorld{Events: []wEvent{{Kind: "policy", Pol: pol, Signer: 1}}}
+	b, err := buildWorld(w)
+	if err != nil {
+		return err
+	}
+	st, lerr := policy.LoadCurrentState(context.Background(), b.m, policy.PolicyRef)
+	ft, hf := []string{}, []string{}
+	for _, f := range files {
+		ns := []string{}
+		for _, ru := range f.Rules {
+			ns = append(ns, ru.Name)
+		}
+		ft = append(ft, fmt.Sprintf("(%s, %s)", coqStr(f.Name), coqStrs(ns)))
+		hf = append(hf, fmt.Sprintf("%s: %v", f.Name, f.Rules))
+	}
+	qs, hq := []string{}, []string{}
+	if lerr == nil {
+		for _, n := range append(append([]string{}, pool...), "targets", "gittuf-allow-rule-x") {
+			has := st.HasRuleName(n)
+			qs = append(qs, fmt.Sprintf("(%s, %s)", coqStr(n), coqBool(has)))
+			hq = append(hq, fmt.Sprintf("%s=%v", n, has))
+		}
+	}
+	term := fmt.Sprintf("(C13Names %s %s %s %s)", coqList(ft), coqBool(errors.Is(lerr, tuf.ErrDuplicatedRuleName)), coqBool(lerr == nil), coqList(qs))
+	c.add(term, sideCase{Class: "names", Nontrivial: len(files) > 1, Key: keyOf(term),
+		Human: map[string]interface{}{"rule_files": hf, "load": fmt.Sprint(lerr), "HasRuleName": hq}})
 	return nil
 }
 
